@@ -1146,7 +1146,7 @@ def classify(err):
 LAST_IDS = [None]
 
 
-def real_load(flowir, timeout=20, primitive=False):
+def real_load(flowir, timeout=20, primitive=False, manifest=None):
     """-> (accepted, exception class name or None, reason codes, post-load predicate problems, seconds)
     primitive=False: the replicated graph (what elaunch/Experiment build); primitive=True: the default of
     graphFromFlowIR / packageFromLocation (nothing is expanded, no search for a cycle)"""
@@ -1159,7 +1159,7 @@ def real_load(flowir, timeout=20, primitive=False):
     signal.setitimer(signal.ITIMER_REAL, timeout)
     try:
         try:
-            g = G.WorkflowGraph.graphFromFlowIR(copy.deepcopy(flowir), {}, primitive=primitive)
+            g = G.WorkflowGraph.graphFromFlowIR(copy.deepcopy(flowir), dict(manifest or {}), primitive=primitive)
         except E.ExperimentInvalidConfigurationError as e:
             signal.setitimer(signal.ITIMER_REAL, 0)
             under = getattr(getattr(e, 'underlyingError', None), 'underlyingErrors', None) or []
@@ -1508,6 +1508,176 @@ def explore_stage_loads(ctx, items):
                          'predicate-only stream S)')
 
 
+# ------------------------------------------------------------------ M. loading WITH A MANIFEST
+# Every other stream loads with the empty manifest.  The manifest decides which references are judged at all: a
+# reference written WITHOUT a stage whose producer is the name of a top-level folder - the LEFT-MOST segment of a
+# manifest target, or one of FlowIR.SpecialFolders - and not a component of the consumer's stage is a reference to that
+# folder; every other reference must name a component.  Stream M: workflows all of whose same-stage references are
+# written in the stage-less form, their reference faults (drop a producer, rename a reference to a name that exists
+# nowhere / in another stage only), each loaded - primitive AND replicated - under a family of manifests built around
+# the dangling name d: nested keys whose right-most / middle segment is d (must still be rejected), keys whose
+# left-most segment is d (flat, nested, trailing separator: a folder reference, the control), unrelated and random
+# keys.  Predicate + Model.accept_man / accept_man_prim (coq/Valid/ManifestModel.v), and Manifest.top_level_folders
+# itself against ManifestModel.top_level_folders.
+HEADER_M = 'Require Import V.Valid.Model V.Valid.ManifestModel V.Valid.Generated.\nOpen Scope string_scope.\n'
+SPECIAL_FOLDERS = ['input', 'data', 'bin', 'conf']
+MAN_SRC = '/c11-no-such-directory/src'
+
+CORPUS_WF_MAN = {'gvars': {'g0': []},
+                 'comps': [{'stage': 0, 'name': 'extract', 'refs': [], 'uses': [], 'vars': {}, 'opts': {}, 'rel': True},
+                           {'stage': 0, 'name': 'consume', 'refs': [(0, 'extract')], 'uses': ['g0'], 'vars': {}, 'opts': {},
+                            'rel': True},
+                           {'stage': 1, 'name': 'extract', 'refs': [(0, 'consume')], 'uses': [], 'vars': {}, 'opts': {},
+                            'rel': True},
+                           {'stage': 1, 'name': 'report', 'refs': [(1, 'extract'), (0, 'extract')], 'uses': [], 'vars': {},
+                            'opts': {}, 'rel': True}]}
+
+
+def written_refs(w):
+    """per component: (written without a stage, (stage it is read in, producer name)) - as render_comp writes them"""
+    return [[(bool(c.get('rel')) and r[0] == c['stage'], (r[0], r[1])) for r in c['refs']] for c in w['comps']]
+
+
+def man_dangling(w, keys):
+    """the written references that name no component and are not a stage-less reference to a top-level folder"""
+    idl = set((c['stage'], c['name']) for c in w['comps'])
+    fs = set(k.split('/', 1)[0] for k in keys) | set(SPECIAL_FOLDERS)
+    return [(sl, r) for brs in written_refs(w) for sl, r in brs if r not in idl and not (sl and r[1] in fs)]
+
+
+def manifests_for(d, other, pool, rng, everything):
+    fam = [('nested key, d is the right-most segment', ['data/%s' % d]),
+           ('nested key, d is the right-most segment', ['%s/%s' % (other, d)]),
+           ('nested key, d is the right-most segment', ['zz/yy/%s' % d]),
+           ('nested key, d is a middle segment', ['zz/%s/yy' % d]),
+           ('nested key, d follows ./', ['./%s' % d]),
+           ('nested key, d is the right-most segment, trailing separator', ['zz/%s/' % d]),
+           ('two keys, d is never the left-most segment', ['zz/%s' % d, 'conf/x']),
+           ('flat key d', [d]),
+           ('nested key, d is the left-most segment', ['%s/deep' % d]),
+           ('key d with a trailing separator', ['%s/' % d]),
+           ('two keys, d is the left-most segment of the second', ['zz/%s' % d, '%s/x/y' % d]),
+           ('unrelated key', ['zz']),
+           ('empty manifest', [])]
+    if not everything:
+        fam = rng.sample(fam[:7], 2) + rng.sample(fam[7:11], 1) + rng.sample(fam[11:], 1)
+    # random keys over the names of the workflow
+    for _ in range(2 if everything else 1):
+        keys = []
+        for _k in range(rng.randint(1, 2)):
+            k = '/'.join(rng.choice(pool) for _s in range(rng.randint(1, 3))) + ('/' if rng.random() < 0.15 else '')
+            if k not in keys:
+                keys.append(k)
+        fam.append(('random keys', keys))
+    return fam
+
+
+def man_items(rng, tier):
+    """-> (fault, workflow, keys, label of the manifest family)"""
+    out = []
+    wfs = [copy.deepcopy(CORPUS_WF_MAN)]
+    for _ in range(4 if tier == 'quick' else 12):
+        w = gen_wf(rng, replication=False)
+        for c in w['comps']:
+            c['rel'] = True
+        wfs.append(w)
+    for wi, w in enumerate(wfs):
+        idl = [(c['stage'], c['name']) for c in w['comps']]
+        names = sorted(set(x[1] for x in idl))
+        muts = [('none', copy.deepcopy(w))]
+        for i, c in enumerate(w['comps']):
+            if any(idl[i] in [tuple(r) for r in d['refs']] for d in w['comps']):
+                m = copy.deepcopy(w)
+                del m['comps'][i]
+                muts.append(('DropComponent', m))
+            for j, r in enumerate(c['refs']):
+                alts = [(r[0], 'nx')] + [(r[0], n2) for n2 in names if (r[0], n2) not in idl]
+                if wi and len(alts) > 2:
+                    alts = alts[:1] + rng.sample(alts[1:], 1)
+                for r2 in alts:
+                    m = copy.deepcopy(w)
+                    m['comps'][i]['refs'][j] = r2
+                    muts.append(('RenameRef' if r2[1] == 'nx' else 'RenameRefName', m))
+        if wi and tier == 'quick' and len(muts) > 7:
+            muts = muts[:1] + rng.sample(muts[1:], 6)
+        for fault, m in muts:
+            dang = man_dangling(m, [])
+            stageless = sorted(set(r[1] for sl, r in dang if sl))
+            d = stageless[0] if stageless else (rng.choice(names) if fault == 'none' else 'nx')
+            other = rng.choice([n for n in names if n != d] or ['zz'])
+            pool = names + ['nx', 'zz', 'data', 'deep', d]
+            for label, keys in manifests_for(d, other, pool, rng, everything=(wi == 0 or tier != 'quick')):
+                out.append((fault, m, keys, label, bool(stageless)))
+    return out
+
+
+def explore_manifest_loads(ctx, items):
+    import experiment.model.frontends.flowir as F
+    terms, metas = [], []
+    tterms, tmetas = [], []
+    seen_keys = set()
+    for fault, w, keys, label, stageless in items:
+        w = finalize(copy.deepcopy(w))
+        flowir = render(w)
+        manifest = {k: MAN_SRC + ':copy' for k in keys}
+        # ---- Manifest.top_level_folders against the model
+        if tuple(keys) not in seen_keys:
+            seen_keys.add(tuple(keys))
+            try:
+                tops = list(F.Manifest(dict(manifest)).top_level_folders)
+            except Exception as e:
+                tops = ['<%s>' % type(e).__name__]
+            tterms.append('(%s, %s)' % (clist(keys, cstr), clist(tops, cstr)))
+            tmetas.append((keys, tops))
+            ctx.count('M:manifests (top_level_folders compared with the model)')
+        dang = man_dangling(w, keys)
+        faulty = bool(dang)
+        name = fault if faulty else ('none' if fault == 'none' else 'FolderReference')
+        ctx.count('M:%s' % name)
+        if stageless:
+            ctx.count('M:stage-less dangling name vs %s -> %s' % (label, 'must be rejected' if faulty else 'folder reference'))
+        for primitive in (True, False):
+            acc, exc, reasons, problems, dt = real_load(flowir, primitive=primitive, manifest=manifest)
+            case = {'fault': name, 'workflow': flowir, 'manifest': manifest, 'primitive': primitive}
+            ctx.case(('M', name, primitive, json.dumps([flowir, sorted(manifest)], sort_keys=True, default=str)), faulty)
+            how = 'as a primitive graph' if primitive else 'as a replicated graph'
+            if exc == 'HANG':
+                ctx.fail(case, 'loading a workflow (%s) with the manifest keys %s %s did not return within the watchdog'
+                         % (name, keys, how), [])
+            elif not acc and exc != 'ExperimentInvalidConfigurationError':
+                ctx.fail(case, 'a workflow (%s) loaded with the manifest keys %s %s is rejected with %s instead of an '
+                               'invalid-configuration error' % (name, keys, how, exc), [])
+            elif acc and faulty:
+                ctx.fail(case, 'a workflow with a dangling component reference (%s: %s names no component and no top-level '
+                               'folder of the manifest keys %s) loads with validation enabled %s'
+                         % (fault, sorted(set(r[1] for _sl, r in dang)), keys, how), [])
+            elif acc and problems and not [x for x in problems if 'names no component' not in x]:
+                pass        # (the post-load walk reads every reference as a component reference: a folder reference is fine)
+            elif acc and problems:
+                ctx.fail(case, 'a workflow that loads (manifest keys %s) is not structurally executable: %s'
+                         % (keys, problems[0]), [])
+            try:
+                wr = written_refs(w)
+                terms.append('(%s, %s, %s, %s, %s, %s)' % (
+                    clist(keys, cstr), c_wf(w),
+                    clist(wr, lambda brs: clist(brs, lambda br: '(%s, %s)' % (cbool(br[0]), c_cid(br[1])))),
+                    cbool(primitive), cbool(acc), clist(reasons, cnat)))
+                metas.append((case, acc, exc, reasons))
+            except GenError:
+                pass
+    bad = ctx.model_mismatches(HEADER_M, tterms, 'check_tlf_case', chunk=400, name='tlf')
+    for i in bad:
+        keys, tops = tmetas[i]
+        ctx.disagree({'manifest keys': keys}, tops, [k.split('/', 1)[0] for k in keys],
+                     'Manifest.top_level_folders vs ManifestModel.top_level_folders (the left-most segment of every key)')
+    bad = ctx.model_mismatches(HEADER_M, terms, '(check_man_case component_full)', chunk=200, name='manifest')
+    for i in bad:
+        case, acc, exc, reasons = metas[i]
+        ctx.disagree(case, {'accepted': acc, 'exception': exc, 'reasons': reasons},
+                     'ManifestModel.accept_man / accept_man_prim differ',
+                     'graphFromFlowIR(flowir, manifest, primitive) vs ManifestModel.accept_man(_prim)')
+
+
 def base_flowir_for_schema():
     w = finalize(copy.deepcopy(CORPUS_WF))
     return render(w)
@@ -1542,11 +1712,14 @@ def run(ctx):
     items.extend(clash_corpus())
     explore_loads(ctx, items)
     explore_stage_loads(ctx, stage_items(ctx.rng, ctx.tier))
+    explore_manifest_loads(ctx, man_items(ctx.rng, ctx.tier))
     ctx.rule = ('A: a document with at least one schema error; B: a single-fault mutant (drop/rename/add edge/duplicate '
                 'name/unknown key/wrong type: a list or a scalar of another type/remove a global or a component-level '
                 'variable/one more mention among the variables) of a generated 2-5 component workflow with aggregating '
                 'and replicating components and chains among the component-level variables; S: the removal of a '
                 'stage-level/component-level/global variable of a generated workflow with stage-level variables; '
+                'M: a reference fault (drop/rename) of a workflow with stage-less references loaded, primitive and '
+                'replicated, with a manifest whose keys do not declare the dangling name as a top-level folder; '
                 'C: every (named predicate, value) pair; D: a one-option document on which convert_component_types raises')
     ctx.extra['mutants_per_workflow'] = 'all positions for the structural faults; quick tier samples 6 of %d option ' \
         'sections and 13 of %d option leaves per component, thorough takes all' % (
@@ -1557,12 +1730,15 @@ def replay(ctx, path):
     d = json.load(open(path))
     c = d.get('case') or d.get('first', {}).get('case') or {}
     if 'workflow' in c:
-        acc, exc, reasons, problems, dt = real_load(c['workflow'], primitive=bool(c.get('primitive')))
+        acc, exc, reasons, problems, dt = real_load(c['workflow'], primitive=bool(c.get('primitive')),
+                                                    manifest=c.get('manifest'))
+        if c.get('manifest'):
+            problems = [x for x in problems if 'names no component' not in x]
         print('fault=%s accepted=%s exception=%s reasons=%s problems=%s (%.2fs)' % (c.get('fault'), acc, exc, reasons,
                                                                                   problems, dt))
         not_judged = bool(c.get('primitive')) and c.get('fault') in PRIM_NOT_JUDGED
         bad = (exc not in (None, 'ExperimentInvalidConfigurationError')) or (acc and not not_judged and c.get('fault') not in
-                                                                             ('none', 'AddForwardEdge', 'AddVarMention',
+                                                                             ('none', 'FolderReference', 'AddForwardEdge', 'AddVarMention',
                                                                               'CoercedScalar', 'ReplicaNameNoClash', 'RemoveUnusedCompVar',
                                                                               'RemoveUnusedStageVar', 'RemoveUnusedVar')) or problems
         if bad:
